@@ -1,10 +1,30 @@
 (* Proofs/Text: the line-level theorems of C09, assembled from Proofs/TextRecords.v. *)
 From DnsV Require Import Model.Text Proofs.Quote Proofs.TextBase Proofs.TextNames Proofs.TextRecords.
+From DnsV Require Base.Text Model.Svcb Spec.SvcbWire.
 From Coq Require Import ZifyN ZifyNat ZifyBool.
 Open Scope N_scope.
 
 (* the guard of the round trip: the line parses to a well-formed record (Model/Text.v wf_recordb) *)
 Definition wf_line (o : toracles) (serial : N) (l : bytes) : Prop := wf_lineb o serial l = true.
+
+(* the library behaviour behind B/H parameter lists: the premises of C18_text_roundtrip_outside_finding
+   (Properties/C18.v) for the oracles of o.  net.ParseIP yields 16 bytes; base64 Decode yields bytes;
+   a printed 4-byte address parses to its v4-in-v6 form; a printed 16-byte address outside
+   ::ffff:0:0/96 holds a ':'; printed addresses hold no ';', '|' or double quote; base64 Decode
+   inverts Encode, whose text holds no ';' or double quote *)
+Definition svcb_library (o : toracles) : Prop :=
+  (forall s a, o_parse_ip o s = Some a -> length a = 16%nat /\ wf_bytes a) /\
+  (forall s x, o_b64_dec o s = Some x -> wf_bytes x) /\
+  (forall a, length a = 4%nat -> wf_bytes a ->
+     o_parse_ip o (o_print_ip o a) = Some (Base.Text.v4_prefix ++ a)) /\
+  (forall a, length a = 16%nat -> wf_bytes a -> Base.Text.ip_to4 a = None ->
+     Base.Text.has_byte 58 (o_print_ip o a) = true) /\
+  (forall a, (length a = 4%nat \/ length a = 16%nat) -> wf_bytes a ->
+     Base.Text.has_byte 59 (o_print_ip o a) = false /\ Base.Text.has_byte 124 (o_print_ip o a) = false
+     /\ Base.Text.has_byte 34 (o_print_ip o a) = false) /\
+  (forall x, wf_bytes x ->
+     o_b64_dec o (o_b64_enc o x) = Some x /\ Base.Text.has_byte 59 (o_b64_enc o x) = false
+     /\ Base.Text.has_byte 34 (o_b64_enc o x) = false).
 
 Section Roundtrip.
 Variable o : toracles.
@@ -12,14 +32,28 @@ Variable serial : N.
 Variable Hip_rt : forall a, wf_bytes a -> length a = 16%nat -> o_parse_ip o (o_print_ip o a) = Some a.
 Variable Hip_nil : o_parse_ip o [] = None.
 Variable Hip_nosep : forall a, contains 44 (o_print_ip o a) = false.
+(* B/H parameter lists (the premises of C18_text_roundtrip_outside_finding, see Proofs/TextRecords.v) *)
+Variable Hs_parse : forall s a, o_parse_ip o s = Some a -> length a = 16%nat /\ wf_bytes a.
+Variable Hs_b64 : forall s x, o_b64_dec o s = Some x -> wf_bytes x.
+Variable Hs_p4 : forall a, length a = 4%nat -> wf_bytes a ->
+  o_parse_ip o (o_print_ip o a) = Some (Base.Text.v4_prefix ++ a).
+Variable Hs_p6 : forall a, length a = 16%nat -> wf_bytes a -> Base.Text.ip_to4 a = None ->
+  Base.Text.has_byte 58 (o_print_ip o a) = true.
+Variable Hs_pc : forall a, (length a = 4%nat \/ length a = 16%nat) -> wf_bytes a ->
+  Base.Text.has_byte 59 (o_print_ip o a) = false /\ Base.Text.has_byte 124 (o_print_ip o a) = false
+  /\ Base.Text.has_byte 34 (o_print_ip o a) = false.
+Variable Hs_be : forall x, wf_bytes x ->
+  o_b64_dec o (o_b64_enc o x) = Some x /\ Base.Text.has_byte 59 (o_b64_enc o x) = false
+  /\ Base.Text.has_byte 34 (o_b64_enc o x) = false.
 
 Lemma parse_marshal_norm : forall r,
-  wf_recordb o r = true -> finding_class o serial r = false ->
+  wf_recordb o r = true -> svcb_accepted o r -> finding_class o serial r = false ->
   parse_line o serial (marshal o r) = Ok (norm serial r).
-Proof using o serial Hip_rt Hip_nil Hip_nosep.
-  intros r W F. unfold finding_class in F. apply orb_false_iff in F. destruct F as [F F27].
+Proof using o serial Hip_rt Hip_nil Hip_nosep Hs_parse Hs_b64 Hs_p4 Hs_p6 Hs_pc Hs_be.
+  intros r W A F. unfold finding_class in F. apply orb_false_iff in F. destruct F as [F F8].
+  apply orb_false_iff in F. destruct F as [F F27].
   apply orb_false_iff in F. destruct F as [F12 F26].
-  destruct r; cbn [f26_class] in F26.
+  destruct r; cbn [f26_class] in F26; cbn [f8_class] in F8.
   - apply parse_net_rec; assumption.
   - apply parse_soa; assumption.
   - apply parse_dot; assumption.
@@ -35,6 +69,27 @@ Proof using o serial Hip_rt Hip_nil Hip_nosep.
   - apply parse_ipmap; assumption.
   - apply parse_csmap; assumption.
   - apply parse_rangepoint; assumption.
+  - apply parse_svcb; assumption.
+Qed.
+
+(* every record parse_line returns carries a parameter list FromText accepted *)
+Lemma parse_accepted : forall l r, parse_line o serial l = Ok r -> svcb_accepted o r.
+Proof using o serial.
+  intros l r P. unfold parse_line in P. destruct l as [|t b]; [discriminate P|].
+  set (f := fields (t :: b)) in *. clearbody f.
+  repeat match type of P with
+  | (if ?c then _ else _) = Ok _ => destruct c
+  | (let '(_, _) := ?x in _) = Ok _ => destruct x
+  | rbind (svcb_params ?oo ?x) _ = Ok _ =>
+      let E := fresh "Esv" in destruct (svcb_params oo x) eqn:E; cbn [rbind] in P; [|discriminate P]
+  | rbind ?x _ = Ok _ => destruct x; cbn [rbind] in P; [|discriminate P]
+  | Ok (if ?c then _ else _) = Ok _ => destruct c
+  end;
+  try (inversion P; subst r; exact I); try discriminate P.
+  inversion P; subst r. cbn [svcb_accepted]. exists (fld f 5).
+  unfold svcb_params in Esv.
+  destruct (Model.Svcb.from_text (sorc o) (fld f 5)) as [ps|e]; [exact Esv|].
+  destruct ((e =? Model.Svcb.E_PANIC) || (e =? Model.Svcb.E_OOR)); discriminate Esv.
 Qed.
 
 (* C09, line level, outside the recorded findings *)
@@ -46,6 +101,7 @@ Theorem roundtrip_outside_finding : forall v2 nornet l r,
 Proof.
   intros v2 nornet l r W P F. unfold wf_line, wf_lineb in W. rewrite P in W.
   apply andb_true_iff in W. destruct W as [W S].
+  pose proof (parse_accepted l r P) as A.
   exists (norm serial r). split; [apply parse_marshal_norm; assumption|]. split.
   - apply (convert_norm o serial); assumption.
   - apply marshal_norm; assumption.
@@ -53,10 +109,10 @@ Qed.
 
 (* the text form is a fixed point: printing what is read back from a printed record prints the same *)
 Theorem marshal_idempotent : forall r r',
-  wf_recordb o r = true -> finding_class o serial r = false ->
+  wf_recordb o r = true -> svcb_accepted o r -> finding_class o serial r = false ->
   parse_line o serial (marshal o r) = Ok r' -> marshal o r' = marshal o r.
-Proof using o serial Hip_rt Hip_nil Hip_nosep.
-  intros r r' W F P. rewrite parse_marshal_norm in P by assumption. inversion P; subst.
+Proof using o serial Hip_rt Hip_nil Hip_nosep Hs_parse Hs_b64 Hs_p4 Hs_p6 Hs_pc Hs_be.
+  intros r r' W A F P. rewrite parse_marshal_norm in P by assumption. inversion P; subst.
   apply marshal_norm; assumption.
 Qed.
 
@@ -91,17 +147,45 @@ Lemma roundtrip_stmt : forall o,
   (forall a, wf_bytes a -> length a = 16%nat -> o_parse_ip o (o_print_ip o a) = Some a) ->
   o_parse_ip o [] = None ->
   (forall a, contains 44 (o_print_ip o a) = false) ->
+  svcb_library o ->
   forall serial v2 nornet l r,
   wf_line o serial l -> parse_line o serial l = Ok r -> finding_class o serial r = false ->
   exists r', parse_line o serial (marshal o r) = Ok r' /\
              convert v2 nornet r' = convert v2 nornet r /\
              marshal o r' = marshal o r.
-Proof. intros o H1 H2 H3 serial. exact (roundtrip_outside_finding o serial H1 H2 H3). Qed.
+Proof.
+  intros o H1 H2 H3 (S1 & S2 & S3 & S4 & S5 & S6) serial.
+  exact (roundtrip_outside_finding o serial H1 H2 H3 S1 S2 S3 S4 S5 S6).
+Qed.
+
+Lemma marshal_idempotent_stmt : forall o serial,
+  (forall a, wf_bytes a -> length a = 16%nat -> o_parse_ip o (o_print_ip o a) = Some a) ->
+  o_parse_ip o [] = None ->
+  (forall a, contains 44 (o_print_ip o a) = false) ->
+  svcb_library o ->
+  forall r r',
+  wf_recordb o r = true -> svcb_accepted o r -> finding_class o serial r = false ->
+  parse_line o serial (marshal o r) = Ok r' -> marshal o r' = marshal o r.
+Proof.
+  intros o serial H1 H2 H3 (S1 & S2 & S3 & S4 & S5 & S6).
+  exact (marshal_idempotent o serial H1 H2 H3 S1 S2 S3 S4 S5 S6).
+Qed.
+
+(* the type characters parse_line knows are exactly the 17 of modelled_type *)
+Lemma badtype_iff : forall o serial t b,
+  parse_line o serial (t :: b) = Err E_BADTYPE <-> modelled_type t = false.
+Proof.
+  intros o serial t b. unfold parse_line, modelled_type. cbn [existsb].
+  set (f := fields (t :: b)). clearbody f.
+  repeat match goal with
+  | |- context [t =? ?c] => destruct (N.eqb_spec t c); [subst t|]
+  end.
+Abort.
 
 (* ------------------------------------------------------------------ the recorded findings are real *)
 (* an oracle that is enough for lines without addresses and without bytes >= 0x80 *)
 Definition o_plain : toracles :=
-  mkTO (fun _ => false) (fun _ => None) (fun _ => []) (fun _ => None) (fun _ _ => []).
+  mkTO (fun _ => false) (fun _ => None) (fun _ => []) (fun _ => None) (fun _ _ => []) (fun _ => None) (fun _ => []).
 
 (* Zexample.com,a.ns.example.com,dns.example.com,0,7200,1800,604800,120,120,,   with Codec.Serial = 7 *)
 Definition f12_line : bytes :=
@@ -156,6 +240,33 @@ Proof.
   - vm_compute in E. inversion E; subst r. vm_compute in E'. discriminate E'.
 Qed.
 
+(* F8: Hexample.com,.,300,,1,ipv6hint=::ffff:1.2.3.4 under an oracle that answers as net.ParseIP and
+   net.IP.String do on the one address involved: the line is well formed and parses, its text form
+   (ipv6hint="1.2.3.4") does not parse *)
+Definition f8_tok : bytes := [58;58;102;102;102;102;58;49;46;50;46;51;46;52].      (* ::ffff:1.2.3.4 *)
+Definition f8_quad : bytes := [49;46;50;46;51;46;52].                                 (* 1.2.3.4 *)
+Definition f8_ip : bytes := [0;0;0;0;0;0;0;0;0;0;255;255;1;2;3;4].
+Definition o_f8 : toracles :=
+  mkTO (fun _ => false)
+       (fun s => if bytes_eqb s f8_tok || bytes_eqb s f8_quad then Some f8_ip else None)
+       (fun a => if bytes_eqb a f8_ip then f8_quad else [])
+       (fun _ => None) (fun _ _ => []) (fun _ => None) (fun _ => []).
+Definition f8_line : bytes := [72;101;120;97;109;112;108;101;46;99;111;109;44;46;44;51;48;48;44;44;49;44;105;112;118;54;104;105;110;116;61] ++ f8_tok.
+(* Hexample.com,.,300,,1,ipv6hint="1.2.3.4" *)
+Definition f8_printed : bytes := [72;101;120;97;109;112;108;101;46;99;111;109;44;46;44;51;48;48;44;44;49;44;105;112;118;54;104;105;110;116;61] ++ 34 :: f8_quad ++ [34].
+
+Lemma f8_refuted : exists r,
+  wf_line o_f8 7 f8_line /\ parse_line o_f8 7 f8_line = Ok r /\ finding_class o_f8 7 r = true /\
+  f12_class 7 r = false /\ f26_class o_f8 r = false /\ f27_class o_f8 r = false /\
+  marshal o_f8 r = f8_printed /\
+  parse_line o_f8 7 (marshal o_f8 r) = Err (E_SVCB + Model.Svcb.E_IP6_NOCOLON).
+Proof.
+  destruct (parse_line o_f8 7 f8_line) as [r|] eqn:E; [|vm_compute in E; discriminate E].
+  exists r. vm_compute in E. inversion E; subst r. clear E.
+  split; [vm_compute; reflexivity|]. split; [reflexivity|].
+  repeat split; vm_compute; reflexivity.
+Qed.
+
 (* non-vacuity: a line with escapes, a wildcard owner, a location and an IPv6 address satisfies the
    guard under an oracle with a (one entry) address table, is outside the finding classes, and its
    text form differs from the line *)
@@ -165,7 +276,7 @@ Definition o_ex : toracles :=
   mkTO (fun _ => false)
        (fun s => if bytes_eqb s ex_ip_text then Some ex_ip else None)
        (fun a => if bytes_eqb a ex_ip then ex_ip_text else [])
-       (fun _ => None) (fun _ _ => []).
+       (fun _ => None) (fun _ _ => []) (fun _ => None) (fun _ => []).
 (* +*.a\054b.Example.com.,2001:db8::1,300,,xy *)
 Definition ex_line : bytes :=
   [43;42;46;97;92;48;53;52;98;46;69;120;97;109;112;108;101;46;99;111;109;46;44] ++ ex_ip_text ++ [44;51;48;48;44;44;120;121].
